@@ -1030,6 +1030,357 @@ def campaign_worklist(ck: Check, n: int) -> None:
     camp.wall_s = time.time() - t0
 
 
+# ------------------------------------------------------------------ multi-document input (a directory of JSON files)
+MD_STEMS = ["a", "b", "c", "d"]
+MD_NODES = ["root", "def", "part", "part2"]          # where a reference is written
+MD_TARGETS = ["def", "part", "part2", "whole"]        # what it points at
+MD_POINTER = {"def": "/definitions/Thing", "part": "/x-parts/Alpha", "part2": "/x-parts/Beta"}
+MD_MARK = {"root": "mkroot", "whole": "mkroot", "def": "mkdef", "part": "mkpart", "part2": "mkbeta"}
+
+
+def md_ref(case: dict, f_from: int, f_to: int, target: str) -> str:
+    stems = case["stems"]
+    file_part = "" if f_from == f_to else stems[f_to] + ".json"
+    if target == "whole":
+        return file_part or "#"
+    return file_part + "#" + MD_POINTER[target]
+
+
+def md_generated_parts(case: dict) -> set:
+    """(file, part kind) objects outside definitions that are reachable by reference from what is always
+    generated (every file's root object and its definitions)"""
+    live, todo = set(), [(f, n) for f in range(len(case["stems"])) for n in ("root", "def")]
+    seen = set(todo)
+    while todo:
+        f, n = todo.pop()
+        for e in case["edges"]:
+            sf, sn, tf, tk = e
+            if (sf, sn) == (f, n) and tk in ("part", "part2") and (tf, tk) not in seen:
+                seen.add((tf, tk))
+                live.add((tf, tk))
+                todo.append((tf, tk))
+    return live
+
+
+def build_multidoc(case: dict) -> dict:
+    """case = {stems [file stems, any order], edges [[from file, from node, to file, target]], model}.
+    EVERY file has a root object, `definitions/Thing`, `x-parts/Alpha` and `x-parts/Beta` — the same pointers
+    with a DIFFERENT subschema in each file: the marker member `mk<kind>_<stem>` names the file it is in.
+    Edge k is the member `e<k>` of its source object."""
+    docs = {}
+    for f, stem in enumerate(case["stems"]):
+        def obj(kind):
+            return {"type": "object", "properties": {f"{MD_MARK[kind]}_{stem}": {"type": "integer"}}}
+        root = obj("root")
+        root["title"] = "Root" + stem.upper()
+        root["x-self"] = stem
+        root["definitions"] = {"Thing": obj("def")}
+        root["x-parts"] = {"Alpha": obj("part"), "Beta": obj("part2")}
+        docs[f] = root
+    for k, (sf, sn, tf, tk) in enumerate(case["edges"]):
+        d = docs[sf]
+        src = d if sn == "root" else d["definitions"]["Thing"] if sn == "def" else d["x-parts"]["Alpha" if sn == "part" else "Beta"]
+        src["properties"][f"e{k}"] = {"$ref": md_ref(case, sf, tf, tk)}
+    return {case["stems"][f] + ".json": doc for f, doc in docs.items()}
+
+
+def run_generate_dir(files: dict, model: str, timeout: float = 20.0):
+    """real generate() on a DIRECTORY of documents (modular output). Also records, from outside, what
+    `_resolve_unparsed_json_pointer` starts from and every `parse_json_pointer` call made under it:
+    (document the lookup is made in — its `x-self` —, pending reference)."""
+    import contextlib
+    import io
+    import os
+    import shutil
+    import tempfile
+    import warnings
+
+    import datamodel_code_generator as d
+    from datamodel_code_generator.parser.jsonschema import JsonSchemaParser
+
+    work = Path(tempfile.mkdtemp(dir=e2e.scratch_root()))
+    inp = work / "in"
+    inp.mkdir()
+    for name, doc in files.items():
+        (inp / name).write_text(json.dumps(doc))
+    out = work / "out"
+    res = e2e.Result(ok=False)
+    obs = {"start": None, "lookups": [], "loaded_end": None}
+    orig_resolve = JsonSchemaParser._resolve_unparsed_json_pointer
+    orig_pjp = JsonSchemaParser.parse_json_pointer
+    depth = [0]
+
+    def loaded_of(parser):
+        return sorted(p for p, r in parser.model_resolver.references.items() if r.loaded)
+
+    def resolve(self):
+        if obs["start"] is None:
+            obs["start"] = {"reserved": sorted(r for v in self.reserved_refs.values() for r in v), "loaded": loaded_of(self),
+                            "buckets": {"/".join(k): sorted(v) for k, v in self.reserved_refs.items()}}
+        depth[0] += 1
+        try:
+            return orig_resolve(self)
+        finally:
+            depth[0] -= 1
+            if depth[0] == 0:
+                obs["loaded_end"] = loaded_of(self)
+
+    def pjp(self, raw, ref, path_parts):
+        if depth[0]:
+            obs["lookups"].append([raw.get("x-self") if isinstance(raw, dict) else None, ref])
+        return orig_pjp(self, raw, ref, path_parts)
+
+    cwd = os.getcwd()
+    t0 = time.time()
+    JsonSchemaParser._resolve_unparsed_json_pointer = resolve
+    JsonSchemaParser.parse_json_pointer = pjp
+    try:
+        with watchdog(timeout), warnings.catch_warnings(), contextlib.redirect_stderr(io.StringIO()):
+            warnings.simplefilter("ignore")
+            d.generate(inp, input_file_type=d.InputFileType.JsonSchema, output=out,
+                       output_model_type=d.DataModelType(model), formatters=[], disable_timestamp=True)
+        res.ok = True
+    except Hang as ex:
+        res.hang, res.error_type, res.error_msg = True, "Hang", str(ex)
+    except BaseException as ex:  # noqa: BLE001
+        if isinstance(ex, (KeyboardInterrupt, SystemExit)):
+            raise
+        res.error_type, res.error_msg = type(ex).__name__, str(ex)[:300]
+    finally:
+        JsonSchemaParser._resolve_unparsed_json_pointer = orig_resolve
+        JsonSchemaParser.parse_json_pointer = orig_pjp
+        if os.getcwd() != cwd:
+            os.chdir(cwd)
+    res.wall_s = time.time() - t0
+    if out.is_dir():
+        for q in sorted(out.rglob("*.py")):
+            res.files[str(q.relative_to(out))] = q.read_text(encoding="utf-8")
+    shutil.rmtree(work, ignore_errors=True)
+    return res, obs
+
+
+def module_imports(code: str) -> tuple[dict, dict]:
+    """(module alias -> sibling module, class alias -> (sibling module, class)) of one emitted module"""
+    mods, classes = {}, {}
+    for node in ast.parse(code).body:
+        if isinstance(node, ast.ImportFrom) and node.level == 1:
+            for a in node.names:
+                if node.module is None:
+                    mods[a.asname or a.name] = a.name
+                else:
+                    classes[a.asname or a.name] = (node.module, a.name)
+    return mods, classes
+
+
+def multidoc_oracle(ck: Check, camp, case: dict) -> bool:
+    """The property's own oracle on a directory of documents: every file's root object and definition give
+    exactly one class in the module of that file, every referenced out-of-container object gives exactly one,
+    and EVERY `$ref` member names the class that carries the marker of precisely the referenced document's
+    subschema. Plus, on the same run, the statement of `resolves_in_own_document` on the implementation."""
+    camp.evaluations += 1
+    stems = case["stems"]
+    model = case.get("model", "pydantic_v2.BaseModel")
+    files = build_multidoc(case)
+    res, obs = run_generate_dir(files, model)
+    order = sorted(stems)
+    camp.hit(f"files:{len(stems)}")
+    camp.hit("kind:" + model)
+    for sf, sn, tf, tk in case["edges"]:
+        if sf != tf:
+            pos = order.index(stems[tf])
+            camp.hit("target-file:" + ("last" if pos == len(order) - 1 else "first" if pos == 0 else "middle") + ":" + tk)
+            camp.hit("direction:" + ("to-earlier" if stems[tf] < stems[sf] else "to-later"))
+        else:
+            camp.hit("same-file:" + tk)
+    base = {"oracle": "e2e-multidoc", "shape": "directory", "kind": model}
+    rec = {k: v for k, v in dict(case, multidoc=True).items() if k != "_obs"}
+
+    def fail(mech: str, observed: str, **extra) -> bool:
+        camp.hit("fail:" + mech)
+        ck.fail({**base, "mechanism": mech, **extra}, rec, observed)
+        return False
+
+    if res.hang:
+        return fail("hang", "generate() did not return")
+    if not res.ok:
+        return fail("generation_error", f"{res.error_type}: {res.error_msg}", error=res.error_type)
+    tables, imports = {}, {}
+    for f, stem in enumerate(stems):
+        code = res.files.get(stem + ".py")
+        if code is None:
+            return fail("missing_module", f"no module for {stem}.json; files: {sorted(res.files)}")
+        err = e2e.parses(code)
+        if err:
+            return fail("unparsable", f"{stem}.py: {err}")
+        tables[stem] = class_table(code)
+        imports[stem] = module_imports(code)
+    live = md_generated_parts(case)
+    owner: dict[tuple, str] = {}
+    for f, stem in enumerate(stems):
+        names = [c for c, _ in tables[stem]]
+        if len(set(names)) != len(names):
+            return fail("duplicate_class_name", f"{stem}.py: {names}")
+        # no class of this module may carry the marker of another file's subschema
+        for c, ms in tables[stem]:
+            foreign = [m for m in ms if m.startswith("mk") and not m.endswith("_" + stem)]
+            if foreign:
+                return fail("wrong_document_fields", f"{stem}.py class {c} has members {foreign}: the subschema of another document", pointer="out_of_container")
+        for kind in ("root", "def", "part", "part2"):
+            mark = f"{MD_MARK[kind]}_{stem}"
+            holders = [c for c, ms in tables[stem] if mark in ms]
+            want = kind in ("root", "def") or (f, kind) in live
+            if want and len(holders) != 1:
+                return fail("missing_class" if not holders else "merged_or_duplicated",
+                            f"{stem}.json {kind}: classes of {stem}.py carrying {mark}: {holders}; classes: {names}")
+            if holders:
+                owner[(f, kind)] = holders[0]
+    generated = {(f, n) for f in range(len(stems)) for n in ("root", "def")} | live
+    for k, (sf, sn, tf, tk) in enumerate(case["edges"]):
+        if (sf, sn) not in generated:
+            continue
+        src_cls = owner[(sf, sn)]
+        ann = dict(tables[stems[sf]])[src_cls].get(f"e{k}")
+        if ann is None:
+            return fail("member_missing", f"{stems[sf]}.{src_cls}.e{k} not emitted")
+        leaves = [x for x in ann_leaves(ann) if x != "None" and x not in WRAPPERS]
+        if len(leaves) != 1:
+            return fail("ref_mislanded", f"{stems[sf]}.{src_cls}.e{k}: {ast.unparse(ann)}")
+        leaf = leaves[0]
+        mods, classes = imports[stems[sf]]
+        if "." in leaf:
+            m, c = leaf.rsplit(".", 1)
+            tmod, tcls = mods.get(m, m), c
+        elif leaf in classes:
+            tmod, tcls = classes[leaf]
+        else:
+            tmod, tcls = stems[sf], leaf
+        want_mark = f"{MD_MARK[tk]}_{stems[tf]}"
+        members = dict(tables.get(tmod, [])).get(tcls)
+        if members is None or want_mark not in members:
+            return fail("ref_mislanded", f"{stems[sf]}.{src_cls}.e{k}: {ast.unparse(ann)} -> {tmod}.{tcls} with members {sorted(members or [])}; "
+                        f"the referenced subschema ({md_ref(case, sf, tf, tk)!r} seen from {stems[sf]}.json) has {want_mark}",
+                        pointer="out_of_container" if tk in ("part", "part2") else "in_container")
+    # resolves_in_own_document, observed from outside: the document a pending pointer is looked up in is the
+    # document the pointer belongs to
+    for used, ref in obs["lookups"]:
+        own = ref.split("#")[0].rsplit("/", 1)[-1].removesuffix(".json")
+        if used != own:
+            return fail("pointer_resolved_in_wrong_document", f"pending {ref!r} was looked up in document {used!r}", pointer="out_of_container")
+    camp.distinct.add(json.dumps(rec, sort_keys=True))
+    if len(camp.samples) < 2 and len(case["edges"]) >= 3:
+        camp.samples.append(rec)
+    case["_obs"] = obs
+    return True
+
+
+def gen_multidoc_case(rng: Rng) -> dict:
+    n = rng.range(2, 4)
+    stems = rng.shuffle(rng.sample(MD_STEMS, n))
+    edges = []
+    for _ in range(rng.range(1, 6)):
+        sf = rng.below(n)
+        tf = rng.below(n) if rng.chance(1, 5) else rng.choice([x for x in range(n) if x != sf])
+        edges.append([sf, rng.choice(["root", "root", "def", "part", "part2"]), tf, rng.choice(["part", "part", "part2", "def", "whole"])])
+    # parts that are written from must be reachable: hang them below their own root with probability 1/2
+    for sf, sn, _, _ in list(edges):
+        if sn in ("part", "part2") and rng.chance(1, 2):
+            edges.append([rng.below(n), "root", sf, sn])
+    return {"stems": stems, "edges": edges, "model": rng.choice(["pydantic_v2.BaseModel"] * 4 + ["pydantic.BaseModel", "dataclasses.dataclass", "typing.TypedDict"])}
+
+
+MULTIDOC_CORPUS = [
+    # the regression this campaign was added for: c.json (parsed later) references a.json#/x-parts/Alpha, a is not the last document
+    {"stems": ["a", "b", "c"], "edges": [[2, "root", 0, "part"]]},
+    {"stems": ["a", "b", "c"], "edges": [[1, "root", 0, "part"], [1, "root", 0, "def"], [1, "root", 2, "whole"], [2, "root", 0, "part"]]},
+    {"stems": ["c", "a", "b"], "edges": [[0, "root", 2, "part"], [2, "part", 1, "part2"], [1, "part2", 1, "part"]]},
+    {"stems": ["a", "b"], "edges": [[0, "root", 1, "part"], [1, "root", 0, "part"], [0, "def", 1, "def"], [1, "def", 0, "whole"]]},
+]
+
+
+def multidoc_exhaustive() -> list:
+    """3 files; one cross-file edge of every target kind from every source file to every other file (the
+    referenced file first / middle / last in sorted order, both directions), alone and next to a second edge"""
+    out = []
+    for sf in range(3):
+        for tf in range(3):
+            if sf == tf:
+                continue
+            for tk in MD_TARGETS:
+                out.append({"stems": ["a", "b", "c"], "edges": [[sf, "root", tf, tk]]})
+                for tk2 in ("part", "def"):
+                    other = 3 - sf - tf
+                    out.append({"stems": ["a", "b", "c"], "edges": [[sf, "root", tf, tk], [other, "def", tf, tk2], [tf, "part", other, "part2"]]})
+    return out
+
+
+def md_model_request(case: dict, obs: dict) -> str | None:
+    """the state `_resolve_unparsed_json_pointer` started from (observed) + the document graph -> driver request"""
+    stems = case["stems"]
+    order = sorted(stems)
+    start = obs.get("start")
+    if start is None:
+        return None
+
+    def canon(f, kind):
+        return stems[f] + ".json#" + MD_POINTER[kind]
+
+    def enc_ref(r: str) -> str:
+        file_, ptr = r.split("#", 1)
+        return f"({order.index(file_.removesuffix('.json'))} {hx(ptr)})"
+
+    rows = []
+    for f in range(len(stems)):
+        for kind in ("def", "part", "part2"):
+            inner = [md_ref(case, sf, tf, tk) for sf, sn, tf, tk in case["edges"] if (sf, sn) == (f, kind)]
+            inner = [(stems[f] + ".json" + r) if r.startswith("#") else (r if "#" in r else r + "#") for r in inner]
+            rows.append(f"({enc_ref(canon(f, kind))} ({' '.join(enc_ref(r) for r in inner)}))")
+    return (f"res.multidoc {len(stems)} ({' '.join(rows)}) ({' '.join(enc_ref(r) for r in start['loaded'])}) "
+            f"({' '.join(enc_ref(r) for r in start['reserved'])}) {len(stems) - 1}")
+
+
+def campaign_multidoc(ck: Check, n: int, exhaustive: bool) -> None:
+    camp = ck.campaign("e2e multi-document (directory input): cross-file refs into definitions / outside definitions / whole file, same pointer with a different subschema in every file")
+    t0 = time.time()
+    rng = ck.rng.fork("multidoc")
+    cases = [dict(c) for c in MULTIDOC_CORPUS] + (multidoc_exhaustive() if exhaustive else multidoc_exhaustive()[::5])
+    cases += [gen_multidoc_case(rng) for _ in range(n)]
+    passed = []
+    for case in cases:
+        if multidoc_oracle(ck, camp, case):
+            passed.append(case)
+    camp.wall_s = time.time() - t0
+    # correspondence of Model.ResolverMultidoc with the real `_resolve_unparsed_json_pointer`
+    camp2 = ck.campaign("Model.ResolverMultidoc.resolveUnparsed vs JsonSchemaParser._resolve_unparsed_json_pointer (lookups made, pointers loaded)")
+    t1 = time.time()
+    todo = [(c, md_model_request(c, c["_obs"])) for c in passed]
+    todo = [(c, r) for c, r in todo if r]
+    replies = ck.driver.run([r for _, r in todo])
+    for (c, _), rep in zip(todo, replies):
+        camp2.evaluations += 1
+        obs = c["_obs"]
+        order = sorted(c["stems"])
+
+        def dec(item):
+            return order[int(item[0])] + ".json#" + unhx(item[1])
+
+        if rep.startswith("ok "):
+            tr, ld = sx_parse(rep[3:])
+            model = (sorted([order[int(u)], dec(r)] for u, r in tr), sorted(dec(r) for r in ld))
+        else:
+            model = rep
+        real = (sorted(obs["lookups"]), sorted(obs["loaded_end"] or []))
+        camp2.hit(f"lookups:{min(len(obs['lookups']), 4)}")
+        if obs["lookups"]:
+            camp2.distinct.add(json.dumps({k: v for k, v in c.items() if k != "_obs"}, sort_keys=True))
+        if model != real:
+            ck.disagree(camp2, {k: v for k, v in c.items() if k != "_obs"}, model, real)
+        elif len(camp2.samples) < 2 and obs["lookups"]:
+            camp2.samples.append({"case": {k: v for k, v in c.items() if k != "_obs"}, "lookups": obs["lookups"]})
+    for c in cases:
+        c.pop("_obs", None)
+    camp2.wall_s = time.time() - t1
+
+
 # ------------------------------------------------------------------ targeted search (only when something broke)
 def names_of_sequences(cases: list[dict]) -> list[str]:
     out: list[str] = []
@@ -1066,6 +1417,9 @@ def search_embed_disagreements(ck: Check) -> None:
     campaign_e2e(ck, 250, " [search]")
     if ck.failures:
         return
+    campaign_multidoc(ck, 300, exhaustive=True)
+    if ck.failures:
+        return
     campaign_e2e_exhaustive(ck, CORE_KEYS[:6] + ["BaseModel"], 3, " [search]")
 
 
@@ -1093,6 +1447,8 @@ def run(ck: Check) -> None:
         "inflect (get_singular_name) is an oracle parameter: the answers of the real function are handed to the model",
         "pathlib on POSIX without symlinks below the base path",
         "theorems hold for every class-name generator; `name_is_classform` speaks of that function, the concrete default form is only tested",
+        "multi-document input: files of one flat directory, references `other.json#/pointer`, `other.json`, `#/pointer`; Model/ResolverMultidoc starts from the "
+        "reserved/loaded state observed at the first call of _resolve_unparsed_json_pointer (the per-document prelude is not modelled for document sets)",
     ]
     ck.notes["distinct_nontrivial_rules"] = {
         "sequences": "distinct (options, operation prefix up to the first unmodelled op) whose final registry holds >= 2 entries",
@@ -1102,6 +1458,7 @@ def run(ck: Check) -> None:
         "uniqueName": "distinct cases in which a suffix had to be appended",
         "modpass": "distinct cases in which the pass renamed at least one class",
         "worklist": "distinct documents whose parse reserved at least one pointer",
+        "multidoc": "distinct document sets (file stems in listing order, edges, kind) on which the oracle passed; for the model correspondence: those in which _resolve_unparsed_json_pointer made at least one lookup",
         "e2e": "distinct documents (keys in order, edges, container, kind) on which the oracle passed; failures matching a known finding are counted in known_finding_hits_in_campaigns",
     }
     campaign_sequences(ck, 400 if quick else 3000)
@@ -1109,6 +1466,7 @@ def run(ck: Check) -> None:
     campaign_modpass(ck, 300 if quick else 3000)
     campaign_worklist(ck, 120 if quick else 1200)
     campaign_e2e(ck, 100 if quick else 600)
+    campaign_multidoc(ck, 200 if quick else 1500, exhaustive=not quick)
     if not quick:
         campaign_e2e_exhaustive(ck, CORE_KEYS, 4, "")
     ck.search_hooks.append(search_embed_disagreements)
@@ -1118,6 +1476,14 @@ def run(ck: Check) -> None:
 def replay(ck: Check, path: str) -> int:
     data = json.loads(open(path).read())
     inp = data.get("input") or (data.get("first_disagreement") or {}).get("input") or {}
+    if "stems" in inp:
+        camp = ck.campaign("replay")
+        multidoc_oracle(ck, camp, inp)
+        for f in ck.failures:
+            print("REPLAY-FAILS:", json.dumps(f.classification), f.observed[:300])
+        if not ck.failures:
+            print("replay: the oracle does not fail on this input")
+        return 1 if ck.failures else 0
     if "container" in inp:
         camp = ck.campaign("replay")
         e2e_oracle(ck, camp, inp)
